@@ -155,8 +155,10 @@ OnDp(rs, e) ==
                                   ![ep].first = IF ek = "Offline" THEN TRUE ELSE @,
                                   ![ep].dxSeen = IF ek = "DataExchanged" THEN TRUE ELSE @]
               ELSE rs.per
-      flagsOk == \A p \in 1..rs.NP : /\ e.live[p] = (per1[p].life # "off")
-                                     /\ e.running[p] => per1[p].life = "configured"
+      flagsOk == /\ \A p \in 1..rs.NP : /\ e.live[p] = (per1[p].life # "off")
+                                        /\ e.running[p] => per1[p].life = "configured"
+                 \* a peripheral that has just exchanged data is running
+                 /\ (ek = "DataExchanged" /\ ep \in 1..rs.NP) => e.running[ep]
       (* C04 *)
       inOk == \A p \in 1..rs.NP : e.pii[p] # rs.per[p].pii => (rs.per[p].delivered.k = "good_dx" /\ rs.per[p].delivered.pdu = e.pii[p])
       evOk == ek = "DataExchanged" => (ep \in 1..rs.NP /\ pr0.delivered.k \in {"good_dx", "sc0"}
